@@ -428,4 +428,23 @@ theorem run_procs (s : BState) (ps : List (String × Bool)) :
         obtain ⟨es, p, h⟩ := ih { s with prio := s.prio + 1, doc := { s.doc with processes := s.doc.processes ++ [i], priorities := s.doc.priorities ++ [(n, s.prio + 1)] } }
         exact ⟨es, p, by rw [h]⟩
 
+/-! ### counting -/
+
+theorem edgeOf_isSome (t : ATempl) (hw : TemplWf t) (e : AEdge) (he : e ∈ t.edges) : (edgeOf t e).isSome = true := by
+  let T : BTempl := { name := t.name, params := [], decls := [], locs := t.locs.map locOf, bps := t.bps.map bpName, init := none, edges := [] }
+  obtain ⟨_, a, _, h2, _⟩ := endpoint_resolve T t e.src (by simp [T, List.map_map, Function.comp_def, locOf_name]) rfl hw.names (hw.edges e he).1
+  obtain ⟨_, b, _, h5, _⟩ := endpoint_resolve T t e.tgt (by simp [T, List.map_map, Function.comp_def, locOf_name]) rfl hw.names (hw.edges e he).2
+  simp [edgeOf, h2, h5]
+
+theorem filterMap_length_of_isSome {α β} (f : α → Option β) (l : List α) (h : ∀ x ∈ l, (f x).isSome = true) :
+    (l.filterMap f).length = l.length := by
+  induction l with
+  | nil => rfl
+  | cons x r ih =>
+    have hx := h x (by simp)
+    cases hfx : f x with
+    | none => simp [hfx] at hx
+    | some y => simp [List.filterMap_cons, hfx, ih (fun z hz => h z (by simp [hz]))]
+
+
 end UtapModel.AM
